@@ -291,6 +291,33 @@ fn run_op(db: &mut FixtureDatabase, op: &Value) -> Value {
                 }
             }
         }
+        "cli" => {
+            // what the CLI computes (unused list, per-(file, name) counts) next to the
+            // server's reference list of EVERY definition (C20)
+            let unused: Vec<Value> = db
+                .get_unused_fixtures()
+                .iter()
+                .map(|(p, n)| json!([p2s(p), n]))
+                .collect();
+            let counts: Vec<Value> = db
+                .verif_definition_usage_counts()
+                .iter()
+                .map(|((p, n), c)| json!([p2s(p), n, c]))
+                .collect();
+            let mut defs: Vec<FixtureDefinition> = Vec::new();
+            for e in db.definitions.iter() {
+                defs.extend(e.value().iter().cloned());
+            }
+            defs.sort_by(|a, b| (&a.file_path, a.line, &a.name).cmp(&(&b.file_path, b.line, &b.name)));
+            let refs: Vec<Value> = defs
+                .iter()
+                .map(|d| {
+                    let r = db.find_references_for_definition(d);
+                    json!({"def": def_json(d), "refs": r.iter().map(usage_json).collect::<Vec<_>>()})
+                })
+                .collect();
+            json!({"unused": unused, "counts": counts, "refs": refs})
+        }
         "agree" => {
             // the per-file view next to direct resolution, for every known name (C05)
             let av = db.get_available_fixtures(&path);
